@@ -163,8 +163,9 @@ BindTop(P, given) == [p \in 1..Len(P.params) |->
 Eval(P, given) ==
   LET args == BindTop(P, given) IN
   IF AnyErr(args) \/ Len(given) > Len(P.params)
-  THEN [val |-> VErr, valK |-> VErr, errI |-> TRUE, exec |-> {}, err |-> TRUE, argerr |-> TRUE]
-  ELSE LET r == EvalProg(P, args, <<>>, FALSE, "letter") IN
-       [val |-> r.val, valK |-> EvalProg(P, args, <<>>, FALSE, "keep").val, errI |-> EvalProg(P, args, <<>>, FALSE, "index").err,
-        exec |-> r.exec, err |-> r.err, argerr |-> FALSE]
+  THEN [val |-> VErr, valK |-> VErr, execK |-> {}, errK |-> TRUE, errI |-> TRUE, exec |-> {}, err |-> TRUE, argerr |-> TRUE]
+  ELSE LET r == EvalProg(P, args, <<>>, FALSE, "letter")
+           rk == EvalProg(P, args, <<>>, FALSE, "keep")
+       IN [val |-> r.val, valK |-> rk.val, execK |-> rk.exec, errK |-> rk.err, errI |-> EvalProg(P, args, <<>>, FALSE, "index").err,
+           exec |-> r.exec, err |-> r.err, argerr |-> FALSE]
 =============================================================================
